@@ -17,6 +17,8 @@ Template directives (line based, inside an otherwise ordinary Verus file):
     //@ before <anchor> [#n]     following lines spliced before the n-th statement whose text starts with anchor
     //@ after <anchor> [#n]      same, after it
     //@ at-start / at-end        following lines spliced at the start / end of the body
+    //@ loop-start <k> / loop-end <k>   following lines spliced at the start / end of the body of loop k
+    //@ loop-iter <k> <name>     name the ghost iterator of for-loop k:  for x in e  becomes  for x in name: e
     //@ boolops                  apply R14 to `|=` / `&=` in this function
     //@ debug-assert keep|drop   R6: turn debug_assert!/assert! into proof obligations (default keep) or drop them
     //@ replace <from> => <to>   literal replacement inside the copied text (logged as manual rewrite; must match once)
@@ -144,6 +146,7 @@ class Directive:
         self.derive = None
         self.contract = None
         self.loops = {}
+        self.loop_iters = {}
         self.closures = {}
         self.splices = []  # (kind, anchor, nth, text, tline)
         self.boolops = False
@@ -186,7 +189,7 @@ def parse_template(text, unit_path):
                     d.loops[cur[1]] = t
                 elif k == "closure":
                     d.closures[cur[1]] = (cur[2], cur[3], t)
-                elif k in ("before", "after", "at-start", "at-end"):
+                elif k in ("before", "after", "at-start", "at-end", "loop-start", "loop-end"):
                     d.splices.append((k, cur[1], cur[2], t, cur[3]))
                 cur, payload = None, []
 
@@ -224,6 +227,11 @@ def parse_template(text, unit_path):
                         cur = (key, norm(m2.group(1)), int(m2.group(2) or 0), i + 1)
                     elif key in ("at-start", "at-end"):
                         cur = (key, None, 0, i + 1)
+                    elif key in ("loop-start", "loop-end"):
+                        cur = (key, None, int(rest), i + 1)
+                    elif key == "loop-iter":
+                        k2, nm = rest.split()
+                        d.loop_iters[int(k2)] = nm
                     elif key == "boolops":
                         d.boolops = True
                     elif key == "debug-assert":
@@ -340,6 +348,12 @@ def render_fn(doc, it, parent, d, relfile, report, twin=False):
             continue
         ed.insert(body["loops"][k]["body_open"], "\n" + text + "\n            ")
         rw["R1"] = rw.get("R1", 0) + 1
+    for k, nm in d.loop_iters.items():
+        if k >= len(body["loops"]) or body["loops"][k]["kind"] != "for":
+            report["lost_anchors"].append("%s: loop-iter %d" % (it["path"], k))
+            continue
+        ed.insert(body["loops"][k]["iter"][0], nm + ": ")
+        rw["R1"] = rw.get("R1", 0) + 1
     # closures R4
     for k, (tys, retdecl, ens) in d.closures.items():
         if k >= len(body["closures"]):
@@ -417,6 +431,15 @@ def render_fn(doc, it, parent, d, relfile, report, twin=False):
             continue
         if kind == "at-end":
             ed.insert(body["close"], "\n" + text + "\n", 5)
+            rw["R10"] = rw.get("R10", 0) + 1
+            continue
+        if kind in ("loop-start", "loop-end"):
+            if nth >= len(body["loops"]):
+                report["lost_anchors"].append("%s: %s %d" % (it["path"], kind, nth))
+                continue
+            lp = body["loops"][nth]
+            pos = lp["body_open"] + 1 if kind == "loop-start" else lp["span"][1] - 1
+            ed.insert(pos, "\n" + text + "\n", 6)
             rw["R10"] = rw.get("R10", 0) + 1
             continue
         cands = [s for s in body["stmts"] if s["norm"].startswith(anchor)]
